@@ -21,7 +21,7 @@ class Module(object):
         self.path = os.path.join(repo, rel)
         with open(self.path, 'rb') as f:
             self.src = f.read().decode('utf-8', 'replace')
-        self.tree = ast.parse(self.src, filename=self.path)
+        self.tree = _CanonIf().visit(ast.parse(self.src, filename=self.path))
         for node in ast.walk(self.tree):
             for child in ast.iter_child_nodes(node):
                 child._parent = node
@@ -53,6 +53,23 @@ class Module(object):
 
     def segment(self, node):
         return ast.get_source_segment(self.src, node) or ''
+
+
+class _CanonIf(ast.NodeTransformer):
+    """Canonical orientation of two-armed conditionals: `if not c: A else: B` is analysed as `if c: B else: A`
+    (also when B is an elif chain: `else: if ..` and `elif ..` are the same tree), so that rules do not depend on which arm a programmer wrote first."""
+
+    def visit_If(self, node):
+        self.generic_visit(node)
+        if node.orelse and isinstance(node.test, ast.UnaryOp) and isinstance(node.test.op, ast.Not):
+            node.test, node.body, node.orelse = node.test.operand, node.orelse, node.body
+        return node
+
+    def visit_IfExp(self, node):
+        self.generic_visit(node)
+        if isinstance(node.test, ast.UnaryOp) and isinstance(node.test.op, ast.Not):
+            node.test, node.body, node.orelse = node.test.operand, node.orelse, node.body
+        return node
 
 
 class ClassInfo(object):
